@@ -70,19 +70,36 @@ def rapid_seed(seed, shard):
     return s | 1
 
 
+def merged_known(tmp):
+    """known_findings.json is canonical; known/<ID>.json fragments (work in progress) are merged in."""
+    doc = {"findings": []}
+    if os.path.isfile(KNOWN):
+        doc = json.load(open(KNOWN))
+    for f in sorted(glob.glob(os.path.join(ROOT, "known", "*.json"))):
+        try:
+            d = json.load(open(f))
+            doc["findings"] += d.get("findings", []) if isinstance(d, dict) else d
+        except Exception as e:
+            print("warning: cannot read %s: %s" % (f, e))
+    out = os.path.join(tmp, "known.json")
+    json.dump(doc, open(out, "w"))
+    return out
+
+
 def run_shards(binary, chk, tier, seed, replay=None):
     cfg = chk[tier]
     nshards = 1 if replay else cfg["shards"]
     tmp = tempfile.mkdtemp(prefix="verif-%s-" % chk["id"])
     faildir = os.path.join(FAILS, chk["id"])
     os.makedirs(faildir, exist_ok=True)
+    known = merged_known(tmp)
     procs = []
     for i in range(nshards):
         wd = os.path.join(tmp, "w%d" % i)
         os.makedirs(wd)
         env = go_env()
         env.update(chk.get("env") or {})
-        env.update(VERIF_OUT=os.path.join(wd, "out.json"), VERIF_TIER=tier, VERIF_KNOWN=KNOWN,
+        env.update(VERIF_OUT=os.path.join(wd, "out.json"), VERIF_TIER=tier, VERIF_KNOWN=known,
                    VERIF_FAILDIR=faildir, VERIF_BUDGET_S=str(cfg["budget_s"]), VERIF_SHARD=str(i),
                    VERIF_NSHARDS=str(nshards), VERIF_ROOT=ROOT, VERIF_GO=go_bin(), VERIF_SEED=str(seed))
         env["TMPDIR"] = wd
